@@ -268,7 +268,8 @@ class _CompxsIO(cccc.Stream):
             if self._metadata["fileWideChiFlag"]:
                 self._metadata["fileWideChi"] = record.rwMatrix(
                     self._metadata["fileWideChi"],
-                    (self._metadata["fileWideChiFlag"], self._metadata["numGroups"]),
+                    self._metadata["fileWideChiFlag"],
+                    self._metadata["numGroups"],
                 )
             self._rwLibraryEnergies(record)
             self._metadata["minimumNeutronEnergy"] = record.rwDouble(
